@@ -258,7 +258,7 @@ PROPS = {
     'C09': dict(
         engines=[('py', 'c09')],
         cli=True,
-        technique='runtime monitoring at the process boundary: differential oracle across front ends (CLI styles, stdin, test runner, language server) + offline checker over client-side LSP notification histories with delay injection (hook H4) and a liveness probe',
+        technique='runtime monitoring at the process boundary: differential oracle across front ends (CLI styles, stdin, test runner, language server) + offline checker over client-side LSP notification histories with delay injection and cooperative yields at the server\'s await points (hook H4) and a liveness probe; thorough tier repeats 64 histories on a ThreadSanitizer build of the binary',
         rule=('(a) 25 (quick) / 300 (thorough) random rule sets (1-6 JavaScript rules: messages with variables, empty message, notes, all severities incl. off, with and without fix) x random texts: '
               '`scan FILE --json=stream|pretty|compact`, `scan --stdin -r` per rule, `--format github`, `--report-style short`, `test --skip-snapshot-tests` with the text filed as the scan says (must pass) and '
               'flipped (must fail), and publishDiagnostics after didOpen must list the same (ruleId, start, end, message) multiset (GitHub: error/warning/info only; LSP: documented note suffix and id-for-empty-message). '
